@@ -630,6 +630,7 @@ int main(int argc, char** argv)
         if (cpc == 0)
         {
           if (dirty && shim::rnd() % 3 == 0) { exec({"C", "ucr"}); dirty = false; }
+          else if (shim::rnd() % 10 == 0) { exec({"C", "uempty"}); }   // what the backend's emptiness decisions rely on (up-to-date loads)
           else { exec({"C", "upr", "ld=-1,-1,-1,0,-1"}); if (last_got) cpc = 1; }
         }
         else if (cpc == 1) { exec({"C", "read"}); cpc = 2; }
